@@ -716,6 +716,20 @@ func genCase(t *rapid.T) Case {
 					Augments: []*sg.Augment{{Target: "shch/shcs", Kids: []*sg.Node{{Kind: "leaf", Name: "incase", Type: str}}}}}}})
 			m.Augments = append(m.Augments, &sg.Augment{Target: "/" + m.Prefix + ":" + a + "/" + m.Prefix + ":shc", Kids: []*sg.Node{{Kind: "leaf", Name: "extra", Type: str}}})
 		}
+		if g.Chance(1, 5, "extensionnamesake") {
+			// the use of an extension whose argument reads like the name of a node of the same grouping body: a refine or
+			// an augment of the uses names the node, the extension statement is none
+			str := &sg.TypeSpec{Name: "string"}
+			gn, ct := x.id("xg"), x.id("xt")
+			if len(m.Raw) == 0 || !strings.Contains(strings.Join(m.Raw, " "), "extension xannot") {
+				m.Raw = append(m.Raw, "extension xannot { argument name; }")
+			}
+			m.Groupings = append(m.Groupings, &sg.Grouping{Name: gn, Raw: []string{m.Prefix + `:xannot "xk";`, m.Prefix + `:xannot "xl";`},
+				Kids: []*sg.Node{{Kind: "container", Name: "xk", Kids: []*sg.Node{{Kind: "leaf", Name: "xz", Type: str}}}, {Kind: "leaf", Name: "xl", Type: str}}})
+			m.Nodes = append(m.Nodes, &sg.Node{Kind: "container", Name: ct, Kids: []*sg.Node{{Kind: "uses", Name: gn,
+				Refines:  []sg.Refine{{Target: "xk", Stmts: []string{`presence "refined";`}}, {Target: "xl", Stmts: []string{`default "d";`}}},
+				Augments: []*sg.Augment{{Target: "xk", Kids: []*sg.Node{{Kind: "leaf", Name: "xadded", Type: str}}}}}}})
+		}
 		if g.Chance(1, 5, "namesakegroupings") {
 			// two groupings of one name in unrelated scopes (each defined in a container of another grouping's body), the
 			// second reached from the first through a third grouping: a chain of uses that comes by the name twice, not
